@@ -158,16 +158,45 @@ Theorem dispatch_cache_class_name_refuted :
   skipn 8 (run_obs w0 w_key) = [ONames [0]; ONames [0]; OB false].
 Proof. vm_compute. repeat split. Qed.
 
-(* (4) an initarg declared for two slots fills one of them only (here: x of class a and y of its subclass b
-   both take :k) *)
+(* (4) REPAIRED (repo_fixes/C12-5, finding C12-initarg-shared-by-two-slots).  x of class a and y of its subclass
+   b both take :k; x and y of class c both take :k within one form.  The unchanged initArgs map held one slot
+   per initarg: only the most specific one was filled.  Now both histories are inside the guard and :k fills
+   both slots, as slot_S says. *)
 Definition sdx := mkSD 0 [0] None false false false.
 Definition sdy := mkSD 1 [0] None false false false.
-Definition w_shared_prefix : list hstep := [dc 0 [] [sdx] [0] []; dc 1 [0] [sdy] [0; 1] []].
-Definition w_shared : list hstep := w_shared_prefix ++ [other (OMake 1 [(0, 5%Z)])].
-Theorem shared_initarg_refuted :
-  guard_ops w0 w_shared_prefix = true /\ guard_ops w0 w_shared = false /\
-  last (run_obs w0 w_shared) OErr = OInst [SUnbound; SVal 5; SMissing; SMissing] /\
+Definition w_shared_prefix : list hstep := [dc 0 [] [sdx] [0] []; dc 1 [0] [sdy] [0; 1] []; dc 2 [] [sdx; sdy] [0; 1; 2] []].
+Definition w_shared : list hstep := w_shared_prefix ++ [other (OMake 1 [(0, 5%Z)]); other (OMake 2 [(0, 6%Z)])].
+Theorem shared_initarg_example :
+  guard_ops w0 w_shared = true /\
+  skipn 3 (run_obs w0 w_shared) = [OInst [SVal 5; SVal 5; SMissing; SMissing]; OInst [SVal 6; SVal 6; SMissing; SMissing]] /\
   map (slot_S (cs_of (run w0 w_shared_prefix)) [1; 0] [(0, 5%Z)]) [0; 1; 2; 3] = [SVal 5; SVal 5; SMissing; SMissing].
+Proof. vm_compute. repeat split. Qed.
+(* the unchanged code, for the record: the first slot found for the initarg only *)
+Fixpoint shared_args_orig (ia : list (nat * nat)) (args : list (nat * Z)) (seen : list nat) (vs : varmap)
+  : option (list nat * varmap) :=
+  match args with
+  | [] => Some (seen, vs)
+  | (k, v) :: r =>
+      match lookup ia k with
+      | None => None
+      | Some s => if memb s seen then None else shared_args_orig ia r (s :: seen) (set_assoc vs s (Some v))
+      end
+  end.
+Theorem original_shared_initarg_refuted :
+  let w := run w0 w_shared_prefix in
+  match lookup (reg w) 1 with
+  | Some id => match get w id with
+               | Some c =>
+                   let v0 := fold_left (fun vs p => init_inh (slots_of (heap w) p) vs) (co_inherit c) (init_own (co_slots c) []) in
+                   match shared_args_orig (co_initargs c) [(0, 5%Z)] [] v0, shared_args (co_initargs c) [(0, 5%Z)] [] v0 with
+                   | Some (_, v1), Some (_, v2) =>
+                       map (slot_state v1) [0; 1] = [SUnbound; SVal 5] /\ map (slot_state v2) [0; 1] = [SVal 5; SVal 5]
+                   | _, _ => False
+                   end
+               | None => False
+               end
+  | None => False
+  end.
 Proof. vm_compute. repeat split. Qed.
 
 (* (5) two initargs of one slot, both supplied: an error instead of the first one's value *)
